@@ -11,7 +11,8 @@ from vf import engine, corpus, run, asl
 from vf.gen import composite
 
 ID = "C17"
-RULE = ("case = (golden test, subset of report options, placement argv|ASCMD|@key file via ASCMD|@key file in "
+RULE = ("case = (golden test or generated Z80 program with IFUSED/IFNUSED/IFDEF, forward references, SET variables, "
+        "macros, sections, listing controls and warnings; subset of report options, placement argv|ASCMD|@key file via ASCMD|@key file in "
         "argv, LANG in {C,de_DE,en_US}, run from another working directory, -o into a sub directory, -q on/off); "
         "fixed cases: every test with a rotating option set so that every option and every pair class occurs; "
         "non-trivial = >= 2 report options or a non-argv placement or another language/cwd; distinct by "
@@ -33,7 +34,9 @@ OPTS = [
     ("s", ["-s"]), ("I", ["-I"]), ("gMAP", ["-g", "MAP"]), ("gNOICE", ["-g", "NOICE"]), ("gATMEL", ["-g", "ATMEL"]),
     ("t", None), ("x", ["-x"]), ("xx", ["-x", "-x"]), ("n", ["-n"]), ("A", ["-A"]), ("r", ["-r", "1"]),
     ("E", ["-E", "errs.log"]), ("gnuerrors", ["-gnuerrors"]), ("LISTRADIX", None), ("P", ["-P"]), ("M", ["-M"]),
-    ("h", ["-h"]), ("SPLITBYTE", ["-SPLITBYTE", "."]), ("c", ["-c"]), ("p", ["-p"]), ("a", ["-a"]),
+    ("h", ["-h"]), ("SPLITBYTE", ["-SPLITBYTE", "."]),
+    # the share-format switches -c/-p/-a are not in the property's list of report-only options and are not varied:
+    # SHARED evaluates its symbols only when a share file is written, which marks them "used" (visible to IFUSED)
 ]
 OPTNAMES = [o[0] for o in OPTS]
 LIST_OPTS = {"u", "C", "s", "I", "t", "LISTRADIX", "SPLITBYTE", "h"}
@@ -43,9 +46,80 @@ def budget(tier):
     return dict(examples=3000 if tier == "quick" else 30000, shards=16)
 
 
+GEN_ITEMS = ["lab", "call", "set", "usevar", "ifused", "ifnused", "ifdef", "macro", "listing", "page", "title",
+             "macexp", "newpage", "message", "warning", "section", "shared", "rept", "data", "equfwd"]
+
+
+def render_gen(items):
+    """Z80 program exercising what report options might disturb: used-flags (IFUSED/IFNUSED), forward references,
+    SET variables, macros with local labels, sections, listing controls, diagnostics without errors"""
+    L = ["\tcpu z80", "\torg 256", "var\tset 1"]
+    labs = [i for i, it in enumerate(items) if it[0] == "lab"]
+    nl = len(labs)
+    mac = False
+    sec = 0
+    for i, it in enumerate(items):
+        k = it[0]
+        a = it[1] if len(it) > 1 else 0
+        if k == "lab":
+            L.append("lb%d:\tnop" % labs.index(i))
+        elif k == "call" and nl:
+            L.append("\tcall lb%d" % (a % nl))
+        elif k == "set":
+            L.append("var\tset var+%d" % (a % 7 + 1))
+        elif k == "usevar":
+            L.append("\tdb var&255")
+        elif k in ("ifused", "ifnused", "ifdef") and nl:
+            what = ["lb%d" % (a % nl), "var", "never%d" % i][a % 3] if k != "ifdef" else ["lb%d" % (a % nl), "never%d" % i][a % 2]
+            L += ["\t%s %s" % (k, what), "\tdb %d" % (i & 255), "\telseif", "\tdb %d,%d" % ((i * 3) & 255, 7), "\tendif"]
+        elif k == "macro":
+            if not mac:
+                L += ["mc\tmacro p", "ml:\tdb p", "\tjr ml", "\tendm"]
+                mac = True
+            L.append("\tmc %d" % (a & 255))
+        elif k == "listing":
+            L.append("\tlisting %s" % ["off", "on", "noskipped", "purecode"][a % 4])
+        elif k == "page":
+            L.append("\tpage %d" % (a % 90 + 10))
+        elif k == "title":
+            L.append("\ttitle \"t%d\"" % a)
+        elif k == "macexp":
+            L.append("\tmacexp_dft %s" % ["off", "on", "noif", "nomacro"][a % 4])
+        elif k == "newpage":
+            L.append("\tnewpage")
+        elif k == "message":
+            L.append("\tmessage \"m%d\"" % a)
+        elif k == "warning":
+            L.append("\twarning \"w%d\"" % a)
+        elif k == "section":
+            sec += 1
+            L += ["\tsection s%d" % sec, "loc:\tdb %d" % (a & 255), "\tjp loc", "\tendsection"]
+        elif k == "shared" and nl:
+            L.append("\tshared lb%d,var" % (a % nl))
+        elif k == "rept":
+            L += ["\trept %d" % (a % 3 + 1), "\tdb var&15", "\tendm"]
+        elif k == "data":
+            L.append("\tdb %d,%d,%d" % (a & 255, (a >> 3) & 255, i & 255))
+        elif k == "equfwd" and nl:
+            L.append("e%d\tequ lb%d+%d" % (i, a % nl, a % 5))
+            L.append("\tdw e%d" % i)
+    return "\n".join(L) + "\n"
+
+
 @composite
 def strategy_(d, tier):
     names = corpus.names()
+    if d.bool(0.4):
+        items = [[d.choice(GEN_ITEMS), d.int(0, 999)] for _ in range(d.int(4, 30))]
+        k = d.weighted([(2, 1), (4, 2), (4, 3), (3, 5)])
+        chosen = []
+        for _ in range(k):
+            o = d.choice(OPTNAMES)
+            if o not in [c[0] for c in chosen]:
+                chosen.append([o, d.int(0, 511) if o == "t" else (d.choice([2, 8, 10, 16, 36]) if o == "LISTRADIX" else None)])
+        return dict(gen=items, opts=chosen, place=d.weighted([(4, "argv"), (2, "ascmd"), (2, "keyenv"), (2, "keyargv")]),
+                    lang=d.weighted([(3, "C"), (1, "de_DE"), (1, "en_US")]), cwd=d.bool(0.25), outdir=d.bool(0.25),
+                    quiet=d.bool(0.7))
     name = names[d.int(0, len(names) - 1)]
     k = d.weighted([(2, 1), (4, 2), (4, 3), (3, 5), (1, 8)])
     chosen = []
@@ -84,7 +158,8 @@ def tokens(case, t):
     return toks
 
 
-MASKS = [(re.compile(r"\d{1,2}[./-]\d{1,2}[./-]\d{2,4}"), "<DATE>"),
+MASKS = [(re.compile(r"[^\r\n]*\(\d+\)\r"), ""),      # progress display of the non-quiet mode (timer driven)
+         (re.compile(r"\d{1,2}[./-]\d{1,2}[./-]\d{2,4}"), "<DATE>"),
          (re.compile(r"\d{1,2}:\d{2}:\d{2}"), "<TIME>"),
          (re.compile(r"[\d.,]+ ?(seconds|Sekunden|sec)[^\n]*"), "<SECS>")]
 
@@ -156,8 +231,16 @@ def one_run(t, case, toks, d, tag):
     return r, p, reports, argv, env
 
 
+def program_of(case):
+    if "gen" in case:
+        src = render_gen(case["gen"]).encode("latin-1")
+        return dict(name="g" + engine.digest(src)[:8], src=src, ori=None, flags=[], extra={})
+    return corpus.load(case["test"])
+
+
 def execute(case):
-    t = corpus.load(case["test"])
+    t = program_of(case)
+    case = dict(case, test=t["name"])
     toks = tokens(case, t)
     classes = ["place:" + case["place"], "lang:" + case["lang"]] + ["opt:" + o for o, _ in case["opts"]]
     nopt = len(case["opts"])
@@ -171,6 +254,10 @@ def execute(case):
         r0, p0, _, argv0, _ = one_run(t, ref, [], d0, "ref")
     if r0.timed_out:
         return engine.inconclusive("timeout", classes)
+    if "gen" in case:
+        classes.append("generated")
+        if r0.status != 0 or p0 is None:
+            return engine.discarded("generated-program-invalid", classes)
     if r0.status != 0 or p0 is None:
         return engine.bad("reference run of %s fails: status %s" % (case["test"], r0.status), key, classes,
                           stderr=r0.err[-500:])
@@ -186,6 +273,8 @@ def execute(case):
     if r1.timed_out or r2.timed_out:
         return engine.inconclusive("timeout", classes)
     detail = dict(argv=argv1, env=env1, status=r1.status, stderr=r1.err[-600:], stdout=r1.out[-300:])
+    if "gen" in case:
+        detail["src"] = t["src"].decode("latin-1")
     if r1.signal:
         return engine.bad("asl killed by signal %d" % r1.signal, key, classes, **detail)
     if r1.status != 0 or p1 is None:
